@@ -55,5 +55,13 @@ func nullifyLastAppliedAnnotation(object *unstructured.Unstructured) {
 		return
 	}
 	delete(annotations, apply.LastAppliedAnnotation)
+	if len(annotations) == 0 {
+		// An object that carried no other annotation must end up without the
+		// field, not with an empty map: the last-applied record of an update
+		// would otherwise differ from the record written on create
+		// (`annotations: {}` vs. absent) and never compare equal.
+		unstructured.RemoveNestedField(object.Object, "metadata", "annotations")
+		return
+	}
 	object.SetAnnotations(annotations)
 }
